@@ -124,14 +124,17 @@ type fakeSrv struct {
 	noMore   bool          // a response said more_results = false
 	maxSync  int           // cut-off for a scanner that does not make progress
 	wire     bool          // responses reach the scanner decoded from their wire form (cellblock)
+	prio     uint32        // the priority the user's scan was built with (0: none)
 	slowOpen bool          // opening a region scanner (except the first) takes longer than the renew interval
 	flyAt    int           // the answer to this request is lost: the scan's context ends while it is in flight
 	cancelFn func()
+	lostOpen bool   // the answer to an opening request was lost: that scanner stays open, nobody can close it
 	expectX  string // scanner id the client is expected to close after a lost continuation
 }
 
 var errInjected = errors.New("injected rpc failure")
 var errUnknownScanner = errors.New("UnknownScannerException")
+var errPrioLost = errors.New("request of a prioritised scan without the priority")
 var errMisrouted = errors.New("UnknownScannerException (request reached a server that does not hold this scanner)")
 var errTooMany = errors.New("too many requests")
 
@@ -184,6 +187,11 @@ func (f *fakeSrv) SendRPC(call hrpc.Call) (proto.Message, error) {
 	if err := call.Context().Err(); err != nil {
 		if scan.RenewalScan() {
 			return nil, err // a renewal whose renewer was stopped meanwhile: not part of the conversation
+		}
+		if scan.IsClosing() {
+			// a close request built on a context that is already done: the client does not send it,
+			// the server never sees it (the scanner it was meant for stays open there)
+			return nil, err
 		}
 		f.mu.Lock()
 		f.trace = append(f.trace, "D/-/-/-/0/0")
@@ -244,6 +252,12 @@ func (f *fakeSrv) SendRPC(call hrpc.Call) (proto.Message, error) {
 		cl = "1"
 	}
 	f.trace = append(f.trace, fmt.Sprintf("%s/%s/%s/%s/%s/%d", kind, hx(startRow), hx(stopRow), idStr, cl, req.GetNumberOfRows()))
+	if f.prio > 0 && kind != "X" && hrpc.GetPriority(scan) != f.prio {
+		// every request of a scan built with hrpc.Priority(p) goes out with p in its header
+		// (region/client.go takes it from the call); only the close request is sent without it
+		f.replies = append(f.replies, "E/prioritylost")
+		return nil, errPrioLost
+	}
 	if sc, ok := f.scanners[req.GetScannerId()]; ok && req.ScannerId != nil &&
 		sc.reg != c.regionOf(scan.Key(), scan.Reversed()) {
 		// the request went, by its key, to the server of another region: nobody there knows this
@@ -348,6 +362,7 @@ func (f *fakeSrv) SendRPC(call hrpc.Call) (proto.Message, error) {
 		// the client drops the response (region client: "context has expired, don't bother")
 		_, kept := f.scanners[sc.id]
 		if isOpen && kept {
+			f.lostOpen = true
 			f.replies = append(f.replies, "E/lostopen")
 		} else {
 			f.replies = append(f.replies, "E/canceled")
@@ -570,8 +585,10 @@ func errStr(err error) string {
 		return "-"
 	case err == io.EOF:
 		return "EOF"
-	case errors.Is(err, context.Canceled):
+	case errors.Is(err, context.Canceled), errors.Is(err, context.DeadlineExceeded):
 		return "canceled"
+	case err == errPrioLost:
+		return "prioritylost"
 	case err == errInjected:
 		return "rpcerr"
 	case err == errUnknownScanner:
@@ -649,9 +666,24 @@ func (c *scanCase) flags() string {
 	return s
 }
 
+// deadlineCtx is a context with a deadline whose expiry the harness triggers itself.
+type deadlineCtx struct {
+	context.Context
+	dl time.Time
+}
+
+func (d deadlineCtx) Deadline() (time.Time, bool) { return d.dl, true }
+
 func runScan(c *scanCase, ch *chooser, plan endPlan, cfg runCfg) runOut {
 	ctx, cancel := context.WithCancel(context.Background())
 	defer cancel()
+	if plan.kind == "deadline" {
+		// the scan's context carries a deadline and the scan ends by its expiry: for the scanner
+		// that is a context that reports a deadline (Deadline()) and is done from some moment on.
+		// The harness decides the moment (so that it does not depend on a timer): the deadline the
+		// context reports lies in the past, Done is closed when the plan says so.
+		ctx = deadlineCtx{ctx, time.Now().Add(-time.Second)}
+	}
 	opts := []func(hrpc.Call) error{hrpc.NumberOfRows(c.nrows)}
 	if c.rev {
 		opts = append(opts, hrpc.Reversed())
@@ -664,6 +696,9 @@ func runScan(c *scanCase, ch *chooser, plan endPlan, cfg runCfg) runOut {
 	}
 	if cfg.renew {
 		opts = append(opts, hrpc.RenewInterval(renewEvery))
+	}
+	if cfg.idBase%3 == 1 {
+		opts = append(opts, hrpc.Priority(uint32(100+cfg.idBase%50)))
 	}
 	scan, err := hrpc.NewScanRange(ctx, []byte("t"), c.start, c.stop, opts...)
 	if err != nil {
@@ -683,6 +718,9 @@ func runScan(c *scanCase, ch *chooser, plan endPlan, cfg runCfg) runOut {
 		f.flyAt = plan.n
 	}
 	f.slowOpen = cfg.renew && cfg.idBase%2 == 1
+	if cfg.idBase%3 == 1 {
+		f.prio = uint32(100 + cfg.idBase%50)
+	}
 	if cfg.silentClose && cfg.sharedHold != nil {
 		f.release = cfg.sharedHold
 	} else if cfg.silentClose {
@@ -752,6 +790,13 @@ func runScan(c *scanCase, ch *chooser, plan endPlan, cfg runCfg) runOut {
 		cancel()
 		ops.WriteByte('X')
 		untilErr()
+	case "deadline":
+		for i := 0; i < plan.n; i++ {
+			next()
+		}
+		cancel()
+		ops.WriteByte('X')
+		untilErr()
 	case "open": // stop in the middle: nothing ends the scan
 		for i := 0; i < plan.n; i++ {
 			next()
@@ -775,7 +820,10 @@ func runScan(c *scanCase, ch *chooser, plan endPlan, cfg runCfg) runOut {
 		ended = true
 	}
 	f.mu.Unlock()
-	if ended {
+	f.mu.Lock()
+	lost := f.lostOpen
+	f.mu.Unlock()
+	if ended && !lost {
 		// bounded wait for the asynchronous close; a tree that leaks scanners would cost the full
 		// wait on every case, so after a number of time-outs the wait is cut short
 		wait := 200 * time.Millisecond
@@ -1082,6 +1130,9 @@ func allEnds(out *Out, c *scanCase, mk func() *chooser, cfg runCfg) {
 	for n := 0; n <= base.nNext+1; n++ {
 		emit(out, c, mk(), endPlan{kind: "close", n: n}, cfg)
 		emit(out, c, mk(), endPlan{kind: "cancel", n: n}, cfg)
+	}
+	for n := 0; n <= base.nNext+1 && n <= 2; n++ {
+		emit(out, c, mk(), endPlan{kind: "deadline", n: n}, cfg)
 	}
 	for i := 0; i < base.nSync; i++ {
 		emit(out, c, mk(), endPlan{kind: "err", n: i}, cfg)
